@@ -179,10 +179,15 @@ func main() {
 	}
 	out = bufio.NewWriterSize(os.Stdout, 1<<20)
 	emitS("meta", "tier", pick("quick", "thorough"))
+	// flushed per group so that a crash in one configuration still leaves the lines before it
 	hashSections()
+	out.Flush()
 	kmacSection()
+	out.Flush()
 	prgSection()
+	out.Flush()
 	ecdsaSections()
+	out.Flush()
 	blsSections() // nothing in builds without BLS
 	// per-section line counts (sorted) close the transcript
 	var names []string
